@@ -272,6 +272,8 @@ for with_M in (False, True):
             res = rhs - A_ @ x
             nr = T.linalg.norm(res, dim=0); nb = T.linalg.norm(rhs, dim=0)
             env.holds('early exit: |b - A x| <= tol |b|', nr <= tol * nb)
+            # a solve configures nothing: the next system (of another size) gets its own default budget of 10 n iterations
+            env.holds('the solver object keeps its configuration (maxiter stays None, tol as given)', s.maxiter is None and s.tol == tol)
         mk_ = cg
     mk()
 
@@ -335,6 +337,23 @@ def cg_conv(rng, tier):
         except Exception as e:
             fails.append(dict(clause='raises', signature=f'n={n},{layout}', error=f'{type(e).__name__}: {e}'[:200]))
         if k < 3: samples.append(dict(n=n, kappa=kappa, layout=layout))
+    # ONE solver object reused: a small system first, then larger ones - every solve gets the default budget of ITS OWN size
+    for k in range(6 if tier == 'quick' else 40):
+        g = torch.Generator().manual_seed(rng.randrange(1 << 30))
+        solver = CG()
+        for n in (rng.randrange(1, 4), rng.randrange(12, 41), rng.randrange(2, 41)):
+            Qm, _ = torch.linalg.qr(torch.randn(n, n, dtype=torch.float64, generator=g))
+            kappa = 10 ** rng.uniform(2, 3)
+            ev = torch.logspace(0, torch.log10(torch.tensor(kappa)).item(), n, dtype=torch.float64) if n > 1 else torch.ones(1, dtype=torch.float64)
+            A_ = Qm @ torch.diag(ev) @ Qm.T; A_ = (A_ + A_.T) / 2
+            b = torch.randn(n, 1, dtype=torch.float64, generator=g)
+            try:
+                x = solver(A_, b)
+                err = float(torch.linalg.norm(b - A_ @ x)) / float(torch.linalg.norm(b))
+                if not err <= 1e-5 * 1.001:
+                    fails.append(dict(clause='tolerance_on_a_reused_solver_object', signature=f'n={n},kappa={kappa:.1f}', err=err)); break
+            except Exception as e:
+                fails.append(dict(clause='raises', signature=f'reused solver, n={n}', error=f'{type(e).__name__}: {e}'[:200])); break
     return dict(evaluations=N, distinct_nontrivial=N, rule='random SPD systems, n in 1..40, kappa in [1,1e3], dense/CSR/COO, with/without initial guess, without / with a Jacobi or approximate-inverse preconditioner; all distinct by seed',
                 bound='n <= 40, kappa <= 1e3', failures=fails[:5], samples=samples)
 
